@@ -455,20 +455,78 @@ fn no_comma(s: &str) -> String {
     if t.is_empty() { "X".to_string() } else { t }
 }
 
+const FIXED_BAD_NAMES: &[&str] = &["PVALIDX", "VALID", "FREE-PVAL", "CONTEXT", "DISALOWED", "IDDIS", "UNASSIGNED_", "P", "NOT_A_PROPERTY", "OR", "PVALID!", "_",
+    "CONTEXTJO", "DISALLOWEDD", "UNASSIGNE", "ID_DI", "FREE_PVAL_", "XPVALID", "PVALIDPVALID", "ID_DIS_FREE_PVAL", "FREE", "PVAL", "CONTEXTX", "0041"];
+/// Names a reader of RFC 8264 / RFC 5892 or of the library's own enum might take for legal: none
+/// of them is one of the seven names the registry uses.
+const ALIAS_BAD_NAMES: &[&str] = &["ID_PVAL", "FREE_DIS", "DIS", "ID_PVALID", "FREE_PVALID", "ID_DISALLOWED", "FREE_DISALLOWED", "CONTEXT_J", "CONTEXT_O",
+    "JOIN_CONTROL", "UNASSIGN", "NOT_ASSIGNED", "INVALID", "ALLOWED", "PROTOCOL_VALID", "_PVALID", "PValid", "FreePVal", "ContextJ", "ContextO", "Disallowed",
+    "IdDis", "Unassigned", "SpecClassPval", "SpecClassDis", "Exceptions", "BackwardCompatible", "LetterDigits", "OtherLetterDigits", "Spaces", "Symbols",
+    "Punctuation", "HasCompat", "ASCII7", "JoinControl", "OldHangulJamo", "PrecisIgnorableProperties", "Controls", "Unknown", "NONE", "TRUE", "ANY"];
+
+/// A property name that is not one of the registry's seven: a fixed spelling, an alias, a
+/// recombination of the legal names' own prefixes and stems, a legal name one edit away, another
+/// letter case, or two legal names glued together. Never contains a comma or " or ".
+pub fn bad_name(rng: &mut Rng) -> String {
+    loop {
+        let n: String = match rng.below(7) {
+            0 => rng.pick(FIXED_BAD_NAMES).to_string(),
+            1 => rng.pick(ALIAS_BAD_NAMES).to_string(),
+            2 => {
+                let pre = ["", "ID_", "FREE_", "CONTEXT", "CONTEXT_", "P", "UN", "DIS", "ID", "FREE"];
+                let stem = ["PVAL", "PVALID", "VALID", "DIS", "DISALLOWED", "ALLOWED", "J", "O", "ASSIGNED", "UNASSIGNED", "VAL"];
+                format!("{}{}", rng.pick(&pre), rng.pick(&stem))
+            }
+            3 => {
+                // one edit away from a legal name
+                let mut c: Vec<char> = NAMES[rng.usize_below(7)].chars().collect();
+                let i = rng.usize_below(c.len());
+                match rng.below(5) {
+                    0 => { c.remove(i); }
+                    1 => { let x = c[i]; c.insert(i, x); }
+                    2 => { if i + 1 < c.len() { c.swap(i, i + 1); } else { c.push('_'); } }
+                    3 => { c[i] = *rng.pick(&['A', 'E', 'I', 'O', 'J', 'L', '_', '0', '1', 'X', 'D', 'V']); }
+                    _ => { c.insert(i, *rng.pick(&['_', 'A', 'S', '-', '.'])); }
+                }
+                c.into_iter().collect()
+            }
+            4 => {
+                let w = NAMES[rng.usize_below(7)];
+                match rng.below(4) {
+                    0 => w.to_lowercase(),
+                    1 => { let mut t = w.to_lowercase(); t[..1].make_ascii_uppercase(); t }
+                    2 => { let mut t = w.to_string(); t[..1].make_ascii_lowercase(); t }
+                    _ => { let mut t = w.to_string(); let l = t.len(); t[l - 1..].make_ascii_lowercase(); t }
+                }
+            }
+            5 => format!("{}{}{}", NAMES[rng.usize_below(7)], rng.pick(&["_", "", "/", "|", "+", "&", "_OR_", "or", "_or_"]), NAMES[rng.usize_below(7)]),
+            _ => {
+                // a legal name truncated or extended
+                let w = NAMES[rng.usize_below(7)];
+                if rng.chance(1, 2) { w[..1 + rng.usize_below(w.len() - 1)].to_string() } else { format!("{}{}", w, rng.pick(&["S", "_", "ID", "J", "O", "2", "_PVAL", "_DIS"])) }
+            }
+        };
+        if !n.is_empty() && !NAMES.contains(&n.as_str()) && !n.contains(',') && !n.contains(" or ") {
+            return n;
+        }
+    }
+}
+
 pub fn gen_bad(rng: &mut Rng, cfg: &GenCfg) -> Body {
     let g = gen_good(rng, cfg);
     let k = rng.usize_below(BAD_CLASSES.len());
-    let bad_names = ["PVALIDX", "VALID", "FREE-PVAL", "CONTEXT", "DISALOWED", "IDDIS", "UNASSIGNED_", "P", "NOT_A_PROPERTY", "OR", "PVALID!", "_",
-        "CONTEXTJO", "DISALLOWEDD", "UNASSIGNE", "ID_DI", "FREE_PVAL_", "XPVALID", "PVALIDPVALID", "ID_DIS_FREE_PVAL", "FREE", "PVAL", "CONTEXTX", "0041"];
+    let n1 = bad_name(rng);
+    let n2 = bad_name(rng);
+    let bad_names = [n1.as_str(), n2.as_str()];
     let text = match k {
         0 => format!("{},{}", g.cps_text(), g.props_text()),
         1 => format!("{},{}", g.cps_text(), no_comma(&g.desc)),
         2 => format!("{},{}", g.props_text(), no_comma(&g.desc)),
         3 => g.cps_text(),
         4 => String::new(),
-        5 => format!("{},{},{}", g.cps_text(), rng.pick(&bad_names), g.desc),
-        6 => format!("{},{} or {},{}", g.cps_text(), rng.pick(&bad_names), NAMES[g.p as usize], g.desc),
-        7 => format!("{},{} or {},{}", g.cps_text(), NAMES[g.p as usize], rng.pick(&bad_names), g.desc),
+        5 => format!("{},{},{}", g.cps_text(), *rng.pick(&bad_names), g.desc),
+        6 => format!("{},{} or {},{}", g.cps_text(), *rng.pick(&bad_names), NAMES[g.p as usize], g.desc),
+        7 => format!("{},{} or {},{}", g.cps_text(), NAMES[g.p as usize], *rng.pick(&bad_names), g.desc),
         8 => format!(",{},{}", g.props_text(), g.desc),
         9 => {
             let junk = ["ghy0141", "U+0041", "0x41", "00G1", "41h", "XYZ", "00 41", "0041;", "#0041", "004l"];
@@ -490,10 +548,15 @@ pub fn gen_bad(rng: &mut Rng, cfg: &GenCfg) -> Body {
             let big = ["110000", "1FFFFF", "FFFFFF", "110000-110001", "0041-110000", "FFFFFFFF"];
             let too_big = |rng: &mut Rng| -> String {
                 let v = gen_cp(rng) as u64;
-                match rng.below(3) {
+                match rng.below(6) {
                     0 => format!("{:X}", v | (1u64 << (21 + rng.below(11)))),
                     1 => format!("{:X}", v + ((1 + rng.below(0xFFF)) << 32)),
-                    _ => format!("{:X}", 0x110000 + rng.below(0x1000)),
+                    2 => format!("{:X}", 0x110000 + rng.below(0x1000)),
+                    // beyond 64 and 128 bits: a valid code point in the low digits, anything above
+                    // (wraps or is shifted out in arithmetic of any fixed width)
+                    3 => { let w = *rng.pick(&[16usize, 32, 8, 24, 12, 40]); format!("{:X}{:0w$X}", 1 + rng.below(0xFFFF), v, w = w) }
+                    4 => format!("{}{:08X}", "F".repeat(8 * (1 + rng.usize_below(4))), v),
+                    _ => format!("1{}{:06X}", "0".repeat(2 + rng.usize_below(40)), v),
                 }
             };
             let field = match rng.below(5) {
@@ -521,7 +584,7 @@ pub fn gen_bad(rng: &mut Rng, cfg: &GenCfg) -> Body {
         15 => {
             // two fields wrong at once: still an error, whichever is noticed first
             let junk = ["ghy0141", "110000", "0041-", "", "-0041"];
-            format!("{},{},{}", rng.pick(&junk), rng.pick(&bad_names), g.desc)
+            format!("{},{},{}", rng.pick(&junk), *rng.pick(&bad_names), g.desc)
         }
         _ => format!("{},,{}", g.cps_text(), g.desc),
     };
